@@ -32,6 +32,8 @@ FUNCS = ('match', 'match_groups', 'match_all')
 def my_flags(flags):
     import regex
     fl = 0
+    if isinstance(flags, list):
+        flags = flags[0]
     if flags:
         f = flags.lower()
         if 'i' in f:
@@ -58,12 +60,15 @@ def helper(task):
             out = type(e).__name__
         return time.process_time() - t0, out
     fn = FUNCTIONS[fname]
+    extra = ()
+    if isinstance(flags, list):       # [flags, extra argument]: a fourth argument must not change the time bound
+        flags, extra = flags[0], tuple(flags[1:])
     t0 = time.process_time()
     try:
-        if flags is None:
+        if flags is None and not extra:
             fn(subj, pat)
         else:
-            fn(subj, pat, flags)
+            fn(subj, pat, flags, *extra)
         out = 'returned'
     except TimeoutError:
         out = 'timeout'
@@ -135,7 +140,7 @@ def build_subject(spec):
 
 
 # ------------------------------------------------------------------------------------------------ generation
-EVIL = [r'(a+)+$', r'(a|aa)+$', r'(a|a?)+$', r'(.*a){12}$', r'(a+)\1+b', r'(?r)b(a+)+', r'(?:a{1,30}){1,30}b', r'(\w+\s?)*$',
+EVIL = ['', '', 'a', 'ab', r'(a+)+$', r'(a|aa)+$', r'(a|a?)+$', r'(.*a){12}$', r'(a+)\1+b', r'(?r)b(a+)+', r'(?:a{1,30}){1,30}b', r'(\w+\s?)*$',
         r'(a*)*b', r'^(([a-z])+.)+[A-Z]([a-z])+$', r'(x+x+)+y', r'(?:(?:a|b)*c)+d', r'(?=(a+)+b)', r'(?:aab){e<=3}(?:a+)+$',
         r'((a+)(b*))+c', r'(a|a)+$', r'^(a+)+$', r'(.*){1,30}[bc]', r'(?:a+){2,20}b', r'([a-z]+)*[0-9]', r'(a?){25}a{25}',
         r'(?<=(a+)+)b', r'(a+|b+|ab)*c', r'^(\d+)*$', r'(?i)(A+)+B', r'(?:a|ab|abc|b|bc|c)*d', r'(.+)+\1x', r'((a{1,5}){1,5}){1,5}b']
@@ -203,7 +208,10 @@ def cases(draw, funcs):
         p = pick(['(a|a)+$', '(a+)+$', '(a|aa)+$']) + '|' + pick(['(?:x|y)', '(?:xy|z)', '[xy]z']) * pick([100, 2000, 6000, 9000])
         pump, nn, tail = 'a', pick([30, 40, 45]), 'b'
         family = 'padded'
-    flags = pick(['', 'i', 'm', 's', 'ims', 'xyz', None, 'I', 'i', 'ims', 'i m s ' * 10 + 'x', 'i,m,s,' * 12 + '!', 'ims' * 3000, ' ' * 40 + 'i' + ' ' * 40 + '?',
+    if family in ('grammar', 'seed') and n(12) == 0:
+        p = pick(['', 'a', 'ab', 'aa', ' ', 'b'])       # plain literals and the empty pattern
+        family = 'literal'
+    flags = pick(['', 'i', 'm', 's', 'ims', 'xyz', None, 'I', 'i', 'ims', ['', 3600], [None, -1], ['i', 1000000], ['', None], ['ims', 0], 'i m s ' * 10 + 'x', 'i,m,s,' * 12 + '!', 'ims' * 3000, ' ' * 40 + 'i' + ' ' * 40 + '?',
                   'I M S' * 9 + 'q'])
     return {'fn': pick(funcs), 'pattern': p, 'subject': [pump, nn, tail, rep], 'flags': flags, 'family': family}
 
